@@ -168,7 +168,10 @@ def apply(project, label, mj):
             raise Disabled('no model', 'missing-model')
         if f is None:
             raise Disabled('no field', 'missing-field')
-        if S.get_field(m, new) is not None:
+        if S.get_field(m, new) is not None and not (
+                new == old and opts.get('db_column')):
+            # (the same name with a db_column only moves the field to
+            # another column)
             raise Disabled('name in use')
         if S.meta_field_refs(m).get(old):
             raise Disabled('referenced by Meta')
